@@ -561,3 +561,40 @@ Lemma stack_nested_arg (rmin : option R) (c a : ptR) (g : @grid ROps) :
   @stack_arg ROps rmin c a true g =
   bind (@relocate_arg ROps rmin euclid (frame_tf c a (eval_arg g))) (fun g1 => @relocate_arg ROps rmin euclid g1).
 Proof. reflexivity. Qed.
+
+(* ---- the radial-minimum step is idempotent (also at the centre): a nested decorated call hands f the same grid *)
+Lemma moved_radius_ge_all (rmin : R) (p : ptR) : rmin <= radR (@moved_pt ROps rmin p (radR p)).
+Proof.
+  destruct (Req_EM_T (radR p) 0) as [Z|NZ].
+  - apply radius_zero_iff in Z. subst p.
+    assert (Z0 : radR ((0, 0) : ptR) = 0) by (apply radius_zero_iff; reflexivity). rewrite Z0.
+    destruct (Rlt_dec 0 rmin) as [Hpos|Hneg].
+    + rewrite centre_radius by exact Hpos. assert (1 <= sqrt 2).
+      { rewrite <- sqrt_1 at 1. apply sqrt_le_1_alt. lra. }
+      nra.
+    + rewrite moved_far by lra. rewrite Z0. lra.
+  - apply moved_radius_ge. intros E. apply NZ. apply radius_zero_iff. exact E.
+Qed.
+Lemma moved_map (rmin : R) (cs : list ptR) :
+  @moved ROps rmin cs (map radR cs) = map (fun p => @moved_pt ROps rmin p (radR p)) cs.
+Proof. induction cs as [|p cs IH]; [reflexivity|]. cbn [map moved]. rewrite IH. reflexivity. Qed.
+Lemma moved_idempotent (rmin : R) (cs : list ptR) :
+  let cs1 := @moved ROps rmin cs (map radR cs) in @moved ROps rmin cs1 (map radR cs1) = cs1.
+Proof.
+  cbv zeta. rewrite !moved_map, map_map. apply map_ext. intros p.
+  apply moved_far. apply moved_radius_ge_all.
+Qed.
+Lemma relocate_arg_idempotent (rmin : R) (g g1 : @grid ROps) :
+  @relocate_arg ROps (Some rmin) euclid g = Ok g1 -> @relocate_arg ROps (Some rmin) euclid g1 = Ok g1.
+Proof.
+  unfold relocate_arg. rewrite !euclid_spec.
+  destruct g as [m cs|cs|m xs|cs]; cbn [coords_of with_new_array]; intros H; try discriminate;
+    inversion H; subst g1; cbn [coords_of with_new_array]; rewrite moved_idempotent; reflexivity.
+Qed.
+Lemma stack_nested_same (rmin : R) (c a : ptR) (g : @grid ROps) :
+  @stack_arg ROps (Some rmin) c a true g = @stack_arg ROps (Some rmin) c a false g.
+Proof.
+  rewrite stack_nested_arg. unfold stack_arg, transform. cbn [negb].
+  destruct (@relocate_arg ROps (Some rmin) euclid (frame_tf c a (eval_arg g))) as [g1|e] eqn:E; [|reflexivity].
+  cbn [bind]. eapply relocate_arg_idempotent. exact E.
+Qed.
